@@ -1976,6 +1976,51 @@ unit(name="SrcAlphabet", props="property C20", file="src/alphabets/mod.rs", dial
                      theorem="RbV.Thm.GenSrcAlphabet.transform_eq_model")])
 
 
+# `RankTransform::get` (translated in SrcAlphabet) and `ranks.len()` are abstract here: `rankGet` may panic; the `f32`
+# computation `(len as f32).log2().ceil() as u32` stays outside (`ceilLog2`, tied to `bitsFor` by hypothesis)
+QGRAM_ABS = {"self.ranks.get": dict(lean="rankGet", args=["u8"], ret="u8", monadic=True),
+             "self.ranks.len": dict(lean="ranksLen", args=[], ret="usize", is_value=True),
+             "f32:log2:ceil": dict(lean="ceilLog2", args=["usize"], ret="u32")}
+QGRAM_STRUCTS = {"QGrams": [("text", "Iter<u8>"), ("q", "u32"), ("bits", "u32"), ("mask", "usize"), ("qgram", "usize")],
+                 "RevQGrams": [("text", "Iter<u8>"), ("q", "u32"), ("bits", "u32"), ("left_shift", "u32"), ("qgram", "usize")]}
+
+unit(name="SrcQGrams", props="property C19", file="src/alphabets/mod.rs", dialect="cf", abstract_fns=QGRAM_ABS,
+     structs=QGRAM_STRUCTS, struct_skip={"QGrams": ["ranks"], "RevQGrams": ["ranks"]},
+     functions=[dict(name="QGrams::qgram_push", lean="qgramPush", header="fn qgram_push(&mut self, a: u8)",
+                     self_fields=[("qgram", "usize"), ("bits", "u32"), ("mask", "usize")], params=[("a", "u8")], ret=None,
+                     theorem="RbV.Thm.GenSrcQGrams.qgramPush_eq_model"),
+                dict(name="QGrams::next", lean="next", header="fn next(&mut self) -> Option<usize>",
+                     after="impl<'a, C, T> Iterator for QGrams<'a, C, T>",
+                     self_fields=[("text", "Iter<u8>"), ("bits", "u32"), ("mask", "usize"), ("qgram", "usize")],
+                     params=[], ret="Option<usize>",
+                     self_calls={"qgram_push": dict(lean="qgramPush", self_args=["self.qgram", "self.bits", "self.mask"],
+                                                    args=["u8"], writes=["self.qgram"], ret=None)},
+                     theorem="RbV.Thm.GenSrcQGrams.next_eq_model"),
+                dict(name="RankTransform::qgrams", lean="qgrams",
+                     header="pub fn qgrams<C, T>(&self, q: u32, text: T) -> QGrams<'_, C, T::IntoIter> where C: Borrow<u8>, T: IntoIterator<Item = C>,",
+                     params=[("q", "u32"), ("text", "&[u8]")], ret="QGrams",
+                     struct_calls={"QGrams.next": dict(lean="next", fields_in=["text", "bits", "mask", "qgram"], args=[],
+                                                       writes=["text", "qgram"], ret="Option<usize>")},
+                     theorem="RbV.Thm.GenSrcQGrams.qgrams_eq_model"),
+                dict(name="RevQGrams::qgram_push_rev", lean="qgramPushRev", header="fn qgram_push_rev(&mut self, a: u8)",
+                     self_fields=[("qgram", "usize"), ("bits", "u32"), ("left_shift", "u32")], params=[("a", "u8")], ret=None,
+                     theorem="RbV.Thm.GenSrcQGrams.qgramPushRev_eq_model"),
+                dict(name="RevQGrams::next", lean="nextRev", header="fn next(&mut self) -> Option<usize>",
+                     after="impl<'a, C, T> Iterator for RevQGrams<'a, C, T>",
+                     self_fields=[("text", "Iter<u8>"), ("bits", "u32"), ("left_shift", "u32"), ("qgram", "usize")],
+                     params=[], ret="Option<usize>",
+                     self_calls={"qgram_push_rev": dict(lean="qgramPushRev",
+                                                        self_args=["self.qgram", "self.bits", "self.left_shift"],
+                                                        args=["u8"], writes=["self.qgram"], ret=None)},
+                     theorem="RbV.Thm.GenSrcQGrams.nextRev_eq_model"),
+                dict(name="RankTransform::rev_qgrams", lean="revQgrams",
+                     header="pub fn rev_qgrams<C, IT, T>(&self, q: u32, text: IT) -> RevQGrams<'_, C, T> where C: Borrow<u8>, T: DoubleEndedIterator<Item = C>, IT: IntoIterator<IntoIter = T>,",
+                     params=[("q", "u32"), ("text", "&[u8]")], ret="RevQGrams",
+                     struct_calls={"RevQGrams.next": dict(lean="nextRev", fields_in=["text", "bits", "left_shift", "qgram"],
+                                                          args=[], writes=["text", "qgram"], ret="Option<usize>")},
+                     theorem="RbV.Thm.GenSrcQGrams.revQgrams_eq_model")])
+
+
 # ================================================================================================== self-test
 
 SELFTEST_RS = r"""
